@@ -174,6 +174,42 @@ pub proof fn lemma_castle_closure(b: &BoardState, s: &BoardState, t: CastlingTyp
         }
     }
 }
+
+// ---- chains of any length (C02 / C13 "however long the chain", C04 "every sequence of legal moves") ----
+// s is the position after some legal move of p (ordinary, en passant or castling), whichever producer built it
+pub open spec fn is_successor(p: &BoardState, s: &BoardState) -> bool {
+    ||| exists|fr: int, fc: int, t: Point, promo: Option<Piece>, mode: MoveGenerationMode|
+            #![trigger pos_after(p, s, fr, fc, t.0 as int, t.1 as int, promo), succ_mode(mode)]
+            0 <= fr && 0 <= fc && own_at(p, Point(fr as usize, fc as usize)) && (legal_step(p, fr, fc, t, promo, mode) || legal_ep(p, fr, fc, t, promo))
+            && pos_after(p, s, fr, fc, t.0 as int, t.1 as int, promo) && succ_mode(mode)
+    ||| exists|t: CastlingType| right_color(t) == p.to_move && may_castle(p, t) && #[trigger] castle_pos_after(p, s, t)
+}
+pub open spec fn succ_mode(mode: MoveGenerationMode) -> bool { true }
+pub open spec fn is_chain(v: Seq<BoardState>) -> bool {
+    forall|i: int| 0 <= i < v.len() - 1 ==> is_successor(#[trigger] &v[i], &v[i + 1])
+}
+// every position along a chain of successors that starts in a legal position is a legal position (induction on the length)
+pub proof fn lemma_chain_closure(v: Seq<BoardState>, n: int)
+    requires v.len() >= 1, legal_position(&v[0]), is_chain(v), 0 <= n < v.len()
+    ensures legal_position(&v[n])
+    decreases n
+{
+    if n > 0 {
+        lemma_chain_closure(v, n - 1);
+        let p = &v[n - 1]; let s = &v[n];
+        assert(is_successor(&v[n - 1], &v[n - 1 + 1]));
+        if exists|t: CastlingType| right_color(t) == p.to_move && may_castle(p, t) && #[trigger] castle_pos_after(p, s, t) {
+            let t = choose|t: CastlingType| right_color(t) == p.to_move && may_castle(p, t) && #[trigger] castle_pos_after(p, s, t);
+            lemma_castle_closure(p, s, t);
+        } else {
+            let (fr, fc, t, promo, mode) = choose|fr: int, fc: int, t: Point, promo: Option<Piece>, mode: MoveGenerationMode|
+                #![trigger pos_after(p, s, fr, fc, t.0 as int, t.1 as int, promo), succ_mode(mode)]
+                0 <= fr && 0 <= fc && own_at(p, Point(fr as usize, fc as usize)) && (legal_step(p, fr, fc, t, promo, mode) || legal_ep(p, fr, fc, t, promo))
+                && pos_after(p, s, fr, fc, t.0 as int, t.1 as int, promo) && succ_mode(mode);
+            lemma_step_closure(p, s, fr, fc, t, promo, mode);
+        }
+    }
+}
 '''
 def build(g):
     g.add(SPEC)
